@@ -42,6 +42,8 @@ type Case struct {
 	T1       int     `json:"t1"`
 	T2       int     `json:"t2"`
 	TMax     int     `json:"tmax"`
+	TS       int     `json:"ts"`      // the element's own Timestamp: -1 = zero time, else symbolic time
+	Com      int     `json:"com"`     // the element's Committed: -1 = nil, else symbolic time
 	Profile  int     `json:"profile"` // rendering parameter: which time profile to use
 }
 
@@ -77,6 +79,7 @@ type Got struct {
 	UpTo2 []Upd    `json:"upto2"`
 	ByTS  []Upd    `json:"byts"`
 	ByIdx []Upd    `json:"byidx"`
+	Own   [][2]int `json:"own"` // [ts, com] of the element after a12, a2, LineStringAt(t1), LineStringAt(t2)
 }
 
 type Rec struct {
@@ -187,6 +190,44 @@ func absLine(ls orb.LineString) [][2]int {
 	return out
 }
 
+// ownOf renders the element's own Timestamp / Committed.
+func (r R) ownOf(c *Case) (ts time.Time, com *time.Time) {
+	if c.TS >= 0 {
+		ts = r.timeOf(c.TS, r.prof.updLoc)
+	}
+	if c.Com >= 0 {
+		t := r.timeOf(c.Com, r.prof.updLoc)
+		com = &t
+	}
+	return ts, com
+}
+
+// ownAbs maps the element's own time back: -1 = unset, -2 = not in the image.
+func (r R) ownAbs(e element) [2]int {
+	var ts time.Time
+	var com *time.Time
+	switch x := e.(type) {
+	case *osm.Way:
+		ts, com = x.Timestamp, x.Committed
+	case *osm.Relation:
+		ts, com = x.Timestamp, x.Committed
+	}
+	ab := func(t time.Time) int {
+		if v := r.timeInv(t); v >= 0 {
+			return v
+		}
+		return -2
+	}
+	out := [2]int{-1, -1}
+	if !ts.IsZero() {
+		out[0] = ab(ts)
+	}
+	if com != nil {
+		out[1] = ab(*com)
+	}
+	return out
+}
+
 // element is the common surface of *osm.Way and *osm.Relation used here.
 type element interface {
 	ApplyUpdatesUpTo(time.Time) error
@@ -195,6 +236,7 @@ type element interface {
 func (r R) build(c *Case) element {
 	if c.Kind == "way" {
 		w := &osm.Way{ID: 7, Version: 3, Visible: true, Updates: r.updsOf(c.Updates)}
+		w.Timestamp, w.Committed = r.ownOf(c)
 		for _, ch := range c.Children {
 			w.Nodes = append(w.Nodes, osm.WayNode{ID: osm.NodeID(ch.Ref), Version: ch.Ver,
 				ChangesetID: csOf(ch.CS), Lat: latOf(ch.Lat), Lon: lonOf(ch.Lon)})
@@ -202,6 +244,7 @@ func (r R) build(c *Case) element {
 		return w
 	}
 	rel := &osm.Relation{ID: 9, Version: 2, Visible: true, Updates: r.updsOf(c.Updates)}
+	rel.Timestamp, rel.Committed = r.ownOf(c)
 	for _, ch := range c.Children {
 		rel.Members = append(rel.Members, osm.Member{Type: osm.Type(ch.Typ), Ref: int64(ch.Ref), Role: "outer",
 			Version: ch.Ver, ChangesetID: csOf(ch.CS), Lat: latOf(ch.Lat), Lon: lonOf(ch.Lon),
@@ -254,12 +297,13 @@ func (r R) apply(e element, t int) (res Res) {
 	return res
 }
 
-func (r R) geom(c *Case, t int, applied element) (g Geom) {
+func (r R) geom(c *Case, t int, applied element) (g Geom, own [2]int) {
 	g.At, g.Applied = [][2]int{}, [][2]int{}
-	w, ok := r.build(c).(*osm.Way)
+	e := r.build(c)
+	w, ok := e.(*osm.Way)
 	if !ok {
 		g.State = State{Children: []Child{}, Pending: []Upd{}}
-		return g
+		return g, r.ownAbs(e)
 	}
 	func() {
 		defer func() {
@@ -271,7 +315,7 @@ func (r R) geom(c *Case, t int, applied element) (g Geom) {
 		g.Applied = absLine(applied.(*osm.Way).LineString())
 	}()
 	g.State = r.state(w)
-	return g
+	return g, r.ownAbs(w)
 }
 
 func main() {
@@ -286,7 +330,8 @@ func main() {
 
 		e1 := r.build(&c)
 		g.A1 = r.apply(e1, c.T1)
-		g.G1 = r.geom(&c, c.T1, e1) // LineString() of e1 is taken before the second call
+		var o1, o2 [2]int
+		g.G1, o1 = r.geom(&c, c.T1, e1) // LineString() of e1 is taken before the second call
 		if g.A1.Err == "crash" {
 			g.A12 = Res{Err: "skipped", ErrIdx: -1, Children: []Child{}, Pending: []Upd{}}
 		} else {
@@ -294,7 +339,8 @@ func main() {
 		}
 		e2 := r.build(&c)
 		g.A2 = r.apply(e2, c.T2)
-		g.G2 = r.geom(&c, c.T2, e2)
+		g.G2, o2 = r.geom(&c, c.T2, e2)
+		g.Own = [][2]int{r.ownAbs(e1), r.ownAbs(e2), o1, o2}
 
 		g.Ls0 = [][2]int{}
 		if w, ok := r.build(&c).(*osm.Way); ok {
